@@ -41,6 +41,8 @@ def type_decl(o, t):
         for i, v in enumerate(t["vals"]):
             if i:
                 o.w(", ")
+            if (i + 1) in t.get("qual", []):
+                o.w(n + "#")
             o.w(v, ("enumvalue", n, v, i))
         o.w(") := ").w(t["def"], ("enumdefault", n)).w(";\n")
     elif k == "alias":
